@@ -884,6 +884,28 @@ class Explorer:
             return [(t, st)]
         has_effect = any(isinstance(x, (ast.Call, ast.Yield)) for x in ast.walk(node)) and not self.is_pure_test(node)
         states = [st]
+        if has_effect and isinstance(node, ast.Compare) and len(node.ops) == 1 \
+                and isinstance(node.ops[0], (ast.Eq, ast.NotEq, ast.Is, ast.IsNot)):
+            # evaluate both operands (with their effects) and decide by value identity when possible
+            outs = []
+            for lv, s1 in self.ev(node.left, st):
+                if lv == RAISE:
+                    outs.append((RAISE, s1))
+                    continue
+                for rv, s2 in self.ev(node.comparators[0], s1):
+                    if rv == RAISE:
+                        outs.append((RAISE, s2))
+                        continue
+                    if lv[0] in ('elem', 'newevent', 'param', 'presult', 'found') and lv == rv:
+                        outs.append((isinstance(node.ops[0], (ast.Eq, ast.Is)), s2))
+                    else:
+                        key = ast.unparse(node)
+                        s_f = s2.clone()
+                        for b, sx in ((True, s2), (False, s_f)):
+                            sx.facts[key] = b
+                            self.emit(sx, 'cond', node, node=node, text=key, polarity=b, atoms=[], synthetic=False)
+                            outs.append((b, sx))
+            return outs
         if has_effect:
             states = []
             for v, s in self.ev(node, st):
